@@ -15,6 +15,11 @@ HasAccessibles.__init_subclass__ machinery), so that a violation case can carry 
              'rret': <V.enc of the value a read_<p> method returns when nothing is scripted (default: the cached value)>,
              'wret': 'none'|'same', 'unit': str, 'inherit': bool (override of an inherited parameter: no description)}
     command = {'name', 'arg': None|spec, 'result': None|spec, 'export': ..., 'ret': <V.enc of the scripted result>}
+    level['xparams'] = convenience parameter kinds of frappy.extparams:
+             {'kind': 'struct', 'name', 'prefix', 'members': [[member, spec, <V.enc default>], ...], 'readonly': bool,
+              'access': 'none' | 'struct' (recording read_<name> [+ write_<name>]) | 'members' (recording read_/write_<prefix><member>)}
+             {'kind': 'floatenum', 'name', 'labels': ['1', '10', ...], 'readonly': bool,
+              'access': 'none' | 'idx' (recording read_<name>_idx and write_<name>_idx)}
 
 Recording fake driver: every write_<p> / read_<p> / command function appends an entry to `module_driver(mod).log`
 and returns a scripted value (`driver.script[(kind, name)]`, an Exception instance in the script is raised).
@@ -123,6 +128,22 @@ def reference(shape):
             params[lname] = {'name': lname, 'spec': limit_spec(params[base]['spec'], lname), 'mode': 'rw_nowrite',
                              'export': True, 'wire': wire_name(lname), 'checks': [], 'limit_of': base, 'rfunc': False,
                              'foreign': False}
+        for xp in level.get('xparams', []):
+            mode = 'ro' if xp['readonly'] else 'rw_ext'     # rw_ext: writable, writes fan out to other parameters
+
+            def xrec(name, spec, xkind):
+                return {'name': name, 'spec': spec, 'mode': mode, 'export': True, 'wire': wire_name(name), 'checks': [],
+                        'limit_of': None, 'rfunc': False, 'foreign': False, 'xkind': xkind, 'default': None}
+            if xp['kind'] == 'struct':
+                members = tuple((mn, T.fromjson(ms)) for mn, ms, _ in xp['members'])
+                params[xp['name']] = xrec(xp['name'], ('struct', members, None), 'struct')
+                for mn, ms in members:
+                    params[xp['prefix'] + mn] = xrec(xp['prefix'] + mn, ms, 'struct-member')
+            else:
+                values = [float(lb) for lb in xp['labels']]
+                params[xp['name']] = xrec(xp['name'], ('double', min(values), max(values), None, None), 'floatenum')
+                params[xp['name'] + '_idx'] = xrec(xp['name'] + '_idx', ('enum', tuple((lb, i) for i, lb in enumerate(xp['labels']))),
+                                                   'floatenum-index')
         for pname, chk in level.get('checks', {}).items():
             params[pname]['checks'] = params[pname]['checks'] + [chk]
         for c in level.get('commands', []):
@@ -276,6 +297,29 @@ def make_class(shape):
                 ns['write_' + p['name']] = _mk_write(p['name'], p.get('wret', 'none'))
             if p.get('rfunc'):
                 ns['read_' + p['name']] = _mk_read(p['name'], V.dec(p['rret']) if 'rret' in p else NOTGIVEN)
+        for xp in level.get('xparams', []):
+            from frappy.extparams import StructParam, FloatEnumParam
+            name = xp['name']
+            if xp['kind'] == 'struct':
+                members = {mn: Parameter(f'member {mn}', T.build(T.fromjson(ms)), default=V.dec(dflt))
+                           for mn, ms, dflt in xp['members']}
+                ns[name] = StructParam(f'generated struct parameter {name}', members, xp['prefix'], readonly=xp['readonly'])
+                if xp['access'] == 'struct':
+                    ns['read_' + name] = _mk_read(name)
+                    if not xp['readonly']:
+                        ns['write_' + name] = _mk_write(name, 'same')
+                elif xp['access'] == 'members':
+                    for mn in members:
+                        ns['read_' + xp['prefix'] + mn] = _mk_read(xp['prefix'] + mn)
+                        if not xp['readonly']:
+                            ns['write_' + xp['prefix'] + mn] = _mk_write(xp['prefix'] + mn, 'same')
+            else:
+                ns[name] = FloatEnumParam(f'generated float/enum parameter {name}', list(xp['labels']),
+                                          readonly=xp['readonly'], default=float(xp['labels'][0]))
+                if xp['access'] == 'idx':
+                    # an internal write method is legitimate also for a readonly parameter
+                    ns[f'read_{name}_idx'] = _mk_read(name + '_idx')
+                    ns[f'write_{name}_idx'] = _mk_write(name + '_idx', 'same')
         for lname in level.get('limits', []):
             ns[lname] = Limit()
         for pname, chk in level.get('checks', {}).items():
@@ -371,7 +415,7 @@ def shapes(tier):
             {'checks': {'target': {'op': 'eq', 'thr': 70}, 'k': {'op': 'gt', 'thr': 8.25}}},
             {'checks': {'k': {'op': 'lt', 'thr': 0.75}}},
         ]}
-    res = [ga, gb, gc]
+    res = [ga, gb, gc, gx_shape(False)]
     if tier == 'thorough':
         gd = {   # readable with parameters of further limit shapes
             'name': 'GD', 'base': 'Readable', 'features': [],
@@ -448,6 +492,25 @@ HIDDEN_SHAPE = {
                 'commands': [C('hcmd', I09), C('go')]}]}
 
 
+def gx_shape(writable):
+    """the convenience parameter kinds of frappy.extparams, each with and without access methods.
+    writable=False: all declared readonly (GX, used by C04 and C06); True: all writable (GXW, C06 only - a write fans out
+    to member / index parameters, which C04's one-call oracle does not model)"""
+    ro = not writable
+    mem = [['p', T.tojson(D010), 2.0], ['i', T.tojson(I09), 3]]
+    return {
+        'name': 'GXW' if writable else 'GX', 'base': 'Module', 'features': [],
+        'levels': [{
+            'params': [P('plain', I09, 'rw_write', dflt=2)],
+            'xparams': [
+                {'kind': 'struct', 'name': 'ctrl', 'prefix': 'pid_', 'members': mem, 'readonly': ro, 'access': 'none'},
+                {'kind': 'struct', 'name': 'cs', 'prefix': 'cs_', 'members': mem, 'readonly': ro, 'access': 'struct'},
+                {'kind': 'struct', 'name': 'cm', 'prefix': 'cm_', 'members': mem, 'readonly': ro, 'access': 'members'},
+                {'kind': 'floatenum', 'name': 'gain', 'labels': ['1', '10', '100'], 'readonly': ro, 'access': 'none'},
+                {'kind': 'floatenum', 'name': 'rng', 'labels': ['0.5', '2', '8'], 'readonly': ro, 'access': 'idx'},
+            ]}]}
+
+
 def shapes_c06(tier):
     """classes used by C06 only (kept out of shapes(): C04's alphabet and counts do not depend on them):
     constants on classes whose read_<p> returns something else (constant given in the class / to be given in the cfg),
@@ -470,4 +533,4 @@ def shapes_c06(tier):
                         P('ah', ('array', h, 1, 2), 'rw_write'), P('sq', ('struct', (('a', q), ('b', o)), ('b',)), 'rw_write')],
              'commands': []},
         ]}
-    return [gk]
+    return [gk, gx_shape(True)]
